@@ -29,19 +29,19 @@ def specs(tier):
             for rel in ("same", "two"):
                 for i, a in enumerate(t):
                     for b in t[i:]:
-                        out.append({"fam": fam, "which": which, "relation": rel, "op1": a, "op2": b, "variants": tier == "thorough"})
+                        out.append({"fam": fam, "which": which, "relation": rel, "op1": a, "op2": b, "variants": tier == "thorough" and fam == "JSON"})
             # container-valued arguments (constructing nested children touches the shared
             # suspend counter): every value-taking mutator with a container value next to every mutator
             taking = [o.name for o in ops.mutators(which) if o.v and o.name in t]
             for rel in ("same", "two"):
                 for a in taking:
                     for b in t:
-                        out.append({"fam": fam, "which": which, "relation": rel, "op1": a + "+c", "op2": b, "variants": tier == "thorough"})
+                        out.append({"fam": fam, "which": which, "relation": rel, "op1": a + "+c", "op2": b, "variants": tier == "thorough" and fam == "JSON"})
             child = table("dict", tier)
             for rel in ("nested-same", "nested-two"):
                 for a in child:
                     for b in t:
-                        out.append({"fam": fam, "which": which, "relation": rel, "op1": a, "op2": b, "variants": tier == "thorough"})
+                        out.append({"fam": fam, "which": which, "relation": rel, "op1": a, "op2": b, "variants": tier == "thorough" and fam == "JSON"})
     return out
 
 
